@@ -335,6 +335,15 @@ func (r *Run) Finish() {
 			}
 		}
 	}
+	if dump := os.Getenv("VERIF_DUMP"); dump != "" {
+		if f, err := os.Create(dump); err == nil {
+			enc := json.NewEncoder(f)
+			for _, c := range r.Results {
+				enc.Encode(map[string]any{"id": c.ID, "family": c.Family, "tags": c.Tags, "oracle": c.OracleHolds, "note": c.OracleNote, "agree": c.Agree, "unmodelled": c.Unmodelled, "diff": c.Diff})
+			}
+			f.Close()
+		}
+	}
 	// proof obligations
 	proofBroken := r.Proof != nil && (r.Proof.Err != "" || r.Proof.Discharged != r.Proof.Obligations || r.Proof.Obligations == 0)
 	writeReplay := func(name string, body map[string]any) string {
